@@ -23,6 +23,9 @@ pub enum Op {
     Probe { xa: usize, xk: Vec<u8>, ya: usize, yk: Vec<u8>, same: bool, empty_fp: bool },
     /// run the session A → B
     Session,
+    /// an entry of another document held in the same store (`which`: 0 = the document with the
+    /// smaller id, 1 = the one with the greater id); the ordered map knows nothing of it
+    Foreign { side: u8, which: u8, a: usize, key: Vec<u8>, c: Option<usize>, ts: u64 },
 }
 
 pub struct C08 {
@@ -31,7 +34,10 @@ pub struct C08 {
 
 impl C08 {
     pub fn new() -> Self {
-        C08 { keys: Keys::new(1, 3) }
+        // three documents; the one reconciled is the middle one in byte order
+        let mut keys = Keys::new(3, 3);
+        keys.namespaces.sort_by_key(|n| *n.id().as_bytes());
+        C08 { keys }
     }
 }
 
@@ -49,7 +55,7 @@ impl Property for C08 {
         "C08"
     }
     fn rule(&self) -> String {
-        "pairs of entry sets (0-10 entries each, 3 authors, edge keys, ties, deletion markers), (split, max set) from {2,3,4,5}x{0,1,2,4}; 0-6 range probes per case with endpoints drawn from stored ids, their neighbours and absent ids in all three shapes (x<y, x>y, x=y) with empty and bogus fingerprints; then a full session; each on memory redb, file redb, the in-crate BTreeMap backend and both Lean models; non-trivial = at least one probe answered with entries or a session of >= 3 messages".into()
+        "pairs of entry sets (0-10 entries each, 3 authors, edge keys, ties, deletion markers; one side empty in a sixth of the cases) in stores that also hold 0-5 entries of two neighbouring documents (smaller and greater id), (split, max set) from {2,3,4,5}x{0,1,2,4}; 0-6 range probes per case with endpoints drawn from stored ids, their neighbours and absent ids in all three shapes (x<y, x>y, x=y) with empty and bogus fingerprints; then a full session; each on memory redb, file redb, the in-crate BTreeMap backend and both Lean models; non-trivial = at least one probe answered with entries or a session of >= 3 messages".into()
     }
     fn corpus(&self) -> Vec<(String, Vec<Op>)> {
         let p = |side: u8, a: usize, k: &[u8], c: Option<usize>, ts: u64| Op::Put { side, a, key: k.to_vec(), c, ts };
@@ -73,7 +79,12 @@ impl Property for C08 {
         }];
         let max = if thorough { 18 } else { 10 };
         let mut keys_used: Vec<(usize, Vec<u8>)> = vec![];
-        for (side, n) in [(0u8, rng.range(0, max)), (1, rng.range(0, max)), (2, rng.range(0, 4))] {
+        // other documents in the same stores
+        for _ in 0..rng.range(0, 5) {
+            ops.push(Op::Foreign { side: rng.below(3) as u8, which: rng.below(2) as u8, a: rng.below(3), key: gen_key(rng), c: if rng.chance(1, 4) { None } else { Some(rng.below(3)) }, ts: *rng.pick(&crate::c02::TIMES) });
+        }
+        let empty_a = rng.chance(1, 6);
+        for (side, n) in [(0u8, if empty_a { 0 } else { rng.range(0, max) }), (1, rng.range(0, max)), (2, if empty_a { 0 } else { rng.range(0, 4) })] {
             for _ in 0..n {
                 let a = rng.below(3);
                 let key = gen_key(rng);
@@ -109,7 +120,7 @@ impl Property for C08 {
         };
         let rt = rt();
         set_clock(NOW);
-        let ns = &self.keys.namespaces[0];
+        let ns = &self.keys.namespaces[1];
         let nsid = ns.id();
         let nshex = hex(nsid.as_bytes());
         let tok: EntryTok = &|e| with_fp(stored_tok(e), e);
@@ -126,6 +137,17 @@ impl Property for C08 {
         for s in mem.iter_mut().chain(fil.iter_mut()) {
             s.store.new_replica(ns.clone())?;
             s.store.close_replica(nsid);
+        }
+        // the neighbouring documents exist in every store (and in the table model)
+        for w in [0usize, 2] {
+            let other = &self.keys.namespaces[w];
+            for s in mem.iter_mut().chain(fil.iter_mut()) {
+                s.store.new_replica(other.clone())?;
+                s.store.close_replica(other.id());
+            }
+            for sid in [1, 2] {
+                lines.push(Line::model(format!("tns {sid} {} 1 {}", hex(other.id().as_bytes()), hex(&other.to_bytes())), "inserted"));
+            }
         }
         iroh_docs::verif::set_thread_sync_config(Some((max_set, split)));
         let res = (|| -> anyhow::Result<()> {
@@ -153,6 +175,25 @@ impl Property for C08 {
                                 lines.push(Line::oracle(format!("put {} {}", i + 11, honest_fp_tok(&e)), outs[0].clone()));
                                 let same = outs[0] == outs[1] && outs[0] == m;
                                 lines.push(Line::oracle("sconst backends-agree", if same { "backends-agree".to_string() } else { format!("differ mem={} file={} map={}", outs[0], outs[1], m) }));
+                            }
+                        }
+                    }
+                    Op::Foreign { side, which, a, key, c, ts } => {
+                        let other = &self.keys.namespaces[if *which == 0 { 0 } else { 2 }];
+                        let e = make_entry(other, &self.keys.authors[*a], key, *c, *ts);
+                        for i in 0..2usize {
+                            if *side == 2 || *side as usize == i {
+                                let mut outs = vec![];
+                                for s in [&mut mem[i], &mut fil[i]] {
+                                    let mut r = s.store.open_replica(&other.id())?;
+                                    let res = rt.block_on(r.insert_remote_entry(e.clone(), PEER, ContentStatus::Missing));
+                                    drop(r);
+                                    s.store.close_replica(other.id());
+                                    outs.push(insert_result(res));
+                                }
+                                lines.push(Line::model(format!("tput {} {}", i + 1, honest_fp_tok(&e)), outs[0].clone()));
+                                let same = outs[0] == outs[1];
+                                lines.push(Line::oracle("sconst backends-agree", if same { "backends-agree".to_string() } else { format!("differ mem={} file={}", outs[0], outs[1]) }));
                             }
                         }
                     }
